@@ -189,6 +189,54 @@ def gen_parent(rng, versions, versions2=None, comp=None, comp2=None, step=60):
     return mg.Repo("par", commits, heads, tags), pins, pins2
 
 
+def gen_parent_merge(rng, versions):
+    """a parent history shaped on purpose: two side branches are built and then merged. Side A has only commits of
+    the parent's own (one mentions the ticket) and still pins the oldest component build; side B moves the pin
+    forward. The merge commit - A or B as its first parent - is built too"""
+    commits, pins, tags = {}, {}, {}
+    base = 1_600_000_000 + 1000
+    state = {'cid': 0, 'bn': 0}
+
+    def add(parents, pin, msg=None, build=False):
+        state['cid'] += 1
+        cid = state['cid']
+        pins[cid] = pin
+        commits[cid] = mg.Commit("par", cid, [commits[p] for p in parents],
+                                 msg or ("BUG-7 p%d" % cid if rng.random() < 0.15 else "misc %d" % cid), base + cid * 60,
+                                 {"DEPENDS": json.dumps({"comp": "%d.%d.%d" % versions[pin][1]})})
+        if build:
+            state['bn'] += 1
+            tags[f"build_{state['bn']}_release_5_{rng.randint(0, 9)}_success"] = cid
+        return cid
+
+    old_pin = rng.choice([0, 0, min(1, len(versions) - 1)])
+    tip = add([], old_pin)
+    for _ in range(rng.randint(0, 2)):
+        tip = add([tip], old_pin, build=rng.random() < 0.3)
+    a = tip
+    for k in range(rng.randint(1, 2)):
+        a = add([a], old_pin, msg="BUG-7 p-own %d" % k if k == 0 or rng.random() < 0.5 else None)
+    b = tip
+    pin_b = old_pin
+    for _ in range(rng.randint(1, 3)):
+        pin_b = min(len(versions) - 1, pin_b + rng.choice([1, 1, 2]))
+        b = add([b], pin_b, build=rng.random() < 0.4)
+    # the ends of both sides are builds
+    for side in (a, b):
+        if side not in tags.values():
+            state['bn'] += 1
+            tags[f"build_{state['bn']}_release_5_{rng.randint(0, 9)}_success"] = side
+    merge = add([a, b] if rng.random() < 0.6 else [b, a], pin_b, build=rng.random() < 0.85)
+    last = merge
+    for _ in range(rng.randint(0, 2)):
+        pin_b = min(len(versions) - 1, pin_b + rng.choice([0, 1]))
+        last = add([last], pin_b, build=rng.random() < 0.5)
+    heads = {"origin/master" if len(commits) % 3 else "origin/main": last}
+    if rng.random() < 0.5:
+        heads["origin/release/5.4"] = rng.choice([a, b, merge])
+    return mg.Repo("par", commits, heads, tags), pins, {}
+
+
 def grow(comp, par, versions, pins, how, second=None):
     """how = {"branch": parent branch name}.  The component's main head gets one more build tag; a new parent
     commit that pins this build becomes the head of a parent branch and is built"""
@@ -630,7 +678,11 @@ def run_shard(ctx):
             comp2, versions2 = gen_comp(rng, "comp2", step=step)
             if not versions2:
                 versions2 = None
-        par, pins, pins2 = gen_parent(rng, versions, versions2, comp, comp2 if versions2 else None, step)
+        if not versions2 and step == 60 and len(versions) >= 2 and i % 7 == 3:
+            par, pins, pins2 = gen_parent_merge(rng, versions)
+            ctx.count("parents_that_merge_two_built_sides")
+        else:
+            par, pins, pins2 = gen_parent(rng, versions, versions2, comp, comp2 if versions2 else None, step)
         if len(pins) < len(par.commits):
             ctx.count("parents_whose_oldest_commits_pin_nothing")
         if versions2:
